@@ -41,7 +41,30 @@ def syn_counts(here, src):
 
 
 def mir_counts(P):
+    """Calls per file and method name in the facts *as extracted* (before the loader's
+    normalisation, which adds synthetic calls when it spells out combinators)."""
+    import json
     out = {}
+    path = getattr(P.facts, "path", None)
+    if path:
+        with open(path) as fh:
+            raw = json.load(fh)
+        for b in raw["bodies"]:
+            if b.get("in_test") or b["kind"] == "promoted" or b.get("derived"):
+                continue
+            for blk in b["blocks"]:
+                if blk["cleanup"]:
+                    continue
+                t = blk["term"]
+                if t["k"] != "call":
+                    continue
+                sp = t["span"]
+                if sp.get("exp"):
+                    continue
+                nm = "." + (t["callee"].get("name") or "")
+                out.setdefault(sp["file"], {})
+                out[sp["file"]][nm] = out[sp["file"]].get(nm, 0) + 1
+        return out
     for f in P.fns.values():
         if f.body.get("in_test") or f.kind == "promoted" or f.body.get("derived"):
             continue
